@@ -7,16 +7,13 @@ EXTENDS DenseModel, Json, IOUtils, SequencesExt
 CONSTANTS MAXLEN, GENLEN
 Ticks == 0..3
 Ops == {[op |-> "new"]} \cup {[op |-> "ctor", times |-> t] : t \in {<<0, 1, 2>>, <<0, 2, 3>>, <<3, 2, 0>>, <<1, 3>>}}
-       \cup {[op |-> "add", a |-> a, b |-> b] : a \in {0, 3}, b \in {1, 2}}
+       \cup {[op |-> "add", a |-> a, b |-> b] : a \in {0, 3}, b \in Ticks}
        \cup {[op |-> "remove", i |-> i] : i \in {0, -1}}
        \cup {[op |-> k, q |-> q] : k \in {"eval", "evalv"}, q \in Ticks}
        \cup {[op |-> "len"], [op |-> "tmin"], [op |-> "tmax"]}
-(* only histories along one direction of time are meaningful: an added piece must continue the stored direction *)
+(* an added piece continues from the last stored time in either direction (integrate() may turn round), never with zero length *)
 Sensible(s, o) ==
-    IF o.op = "add" THEN
-        IF s.has /\ Len(s.ts) > 0
-        THEN LET l == Last(s.ts) f == IF Len(s.ps) > 0 THEN s.ps[1].a ELSE l IN o.b # l /\ (l > f => o.b > l) /\ (l < f => o.b < l) /\ (l = f => TRUE)
-        ELSE o.b # o.a
+    IF o.op = "add" THEN (IF s.has /\ Len(s.ts) > 0 THEN o.b # Last(s.ts) ELSE o.b # o.a)
     ELSE TRUE
 VARIABLES st, hist, lastOut, lastOp
 vars == <<st, hist, lastOut, lastOp>>
